@@ -177,6 +177,17 @@ def run(ctx):
             for kind in ("ndarray", "electrical_signal"):
                 if n < 2:
                     continue
+                for badlen in sorted({n + 1, n - 1, 2 * n, n // 2, n // 3, 2} - {n, 0, 1}):
+                    bad = np.zeros(badlen) if kind == "ndarray" else electrical_signal(np.zeros(badlen))
+                    try:
+                        (MZM if dev == "MZM" else PM)(x, bad)
+                        raised = "ok"
+                    except ValueError:
+                        raised = "ValueError"
+                    except Exception as e:
+                        raised = type(e).__name__
+                    events.append({"kind": "verdict", "what": f"{dev}-{kind}-len{badlen}/{n}", "raised": raised, "expected": "ValueError"})
+                    meta.append(("verdict", dev + kind))
                 bad = np.zeros(n + 1) if kind == "ndarray" else electrical_signal(np.zeros(n + 1))
                 try:
                     (MZM if dev == "MZM" else PM)(x, bad)
